@@ -60,6 +60,11 @@ def tempo_items(c):
                     v = hexs(str(float_bits(v)))
                 elif kind in ("b", "i"):
                     v = hexs(v)
+                elif kind not in ("s", "y"):
+                    # u (no oneof), a (array), k (key-value list), n (no value): the harness already wrote the tree as the flat
+                    # token list take_oval decodes (genNested: every token hex, joined by spaces; doubles as float64 bits)
+                    its += [k, hexs(kind)] + v.split(" ")
+                    continue
                 its += [k, hexs(kind), v]
             evs = sp.get("events") or []
             its.append(hexs(str(len(evs))))
@@ -514,6 +519,25 @@ def run_tail_frames(ck):
                   "literal %s dynamic %s" % (lits, dyn))
 
 
+def run_source_facts(ck):
+    """generated obligations on source text the theorems lean on"""
+    import vcheck
+    src = open(os.path.join(vcheck.REPO, "reader/traceql/transpiler/clickhouse_transpiler/traces_data.go")).read()
+    expr = "toFloat64(max(traces.timestamp_ns + traces.duration_ns) - min(traces.timestamp_ns)) / 1000000"
+    ck.obligation("TraceQL durationMs is an Int64 expression converted with toFloat64 and divided by 1000000 (finite for every Int64: traceql_duration_always_finite), "
+                  "and only its min() reaches the result column",
+                  src.count('"%s", "_duration_ms"' % expr) == 1 and src.count('sql.NewSimpleCol("min(_duration_ms)", "duration_ms")') == 1
+                  and len(re.findall(r"_duration_ms|duration_ms", src)) >= 2, "expression not found in traces_data.go")
+    rp = open(os.path.join(vcheck.REPO, "reader/traceql/transpiler/reqest_processor.go")).read()
+    ck.obligation("TraceInfo.DurationMs is the scanned Float64 column, nothing else is assigned to it",
+                  len(re.findall(r"DurationMs:\s+traceDurationMs,", rp)) == 1 and len(re.findall(r"\bDurationMs\b", rp)) == 1
+                  and len(re.findall(r"traceDurationMs\s+float64", rp)) == 1, "")
+    ctl = open(os.path.join(vcheck.REPO, "reader/controller/queryRangeController.go")).read()
+    m = re.search(r"case str, ok := <-watcher\.GetRes\(\):\s*if !ok \{(?:\s*//[^\n]*)*\s*return\s*\}", ctl)
+    ck.obligation("Tail websocket: when the service channel is closed the handler returns (no frame is written from the zero value of a closed channel; repaired in 5d78c0a)",
+                  m is not None and ctl.count("<-watcher.GetRes()") == 1, "")
+
+
 def run_canned_bodies(ck):
     """generated obligation: the literal bodies of the label service are the model's bodies of no item (Example canned_label_bodies)"""
     import vcheck
@@ -539,9 +563,27 @@ def run(ck):
         "C15: /series: the decoding of a stored label text that is not JSON (strconv.Unquote fallback of storedLabels) is an input of the model; texts that are "
         "JSON objects of strings are decoded by the Coq reader itself",
     ]
-    ck.coq_props()
+    # the .vo files the case evaluations load must be current before anything runs; the fresh compile of props/C15.v that
+    # prints the assumptions of its ~110 theorems (0.45 s each) then runs beside the harnesses and case evaluations
+    ck.coq_make(["props/%s.vo" % PID])
+    import threading
+    def props_job():
+        try:
+            ck.coq_props()
+        except Exception as e:      # an exception in a thread would otherwise only be printed
+            ck.obligation("props/C15.v compiled and the assumptions of its theorems were read", False, repr(e))
+    props_thread = threading.Thread(target=props_job)
+    props_thread.start()
+    try:
+        run_rest(ck)
+    finally:
+        props_thread.join()
+
+
+def run_rest(ck):
     run_tail_frames(ck)
     run_canned_bodies(ck)
+    run_source_facts(ck)
     run_pool_order(ck)
     run_encoders(ck)
     import importlib.util
@@ -549,3 +591,7 @@ def run(ck):
     c15_pyro = importlib.util.module_from_spec(spec)
     spec.loader.exec_module(c15_pyro)
     c15_pyro.run_pyro(ck)
+    spec = importlib.util.spec_from_file_location("c15_tracepb", os.path.join(os.path.dirname(os.path.abspath(__file__)), "c15_tracepb.py"))
+    c15_tracepb = importlib.util.module_from_spec(spec)
+    spec.loader.exec_module(c15_tracepb)
+    c15_tracepb.run_tracepb(ck)
